@@ -294,7 +294,7 @@ func vfC17Silence(res *vfResult, c vfC17Case) {
 		}
 	case "completed":
 		if len(postB) != 0 {
-			if c.V.Cfg.Is13() {
+			if vfIs13(target.Conn) { // negotiated version (dual-stack variants)
 				// a post-handshake flight (ticket) awaiting its ACK follows the law from its first transmission t0
 				ok := len(postB) == len(grid)
 				for i := 0; i < len(postB) && i < len(grid) && ok; i++ {
